@@ -85,31 +85,32 @@ mod mac_capture__exppar;
 mod mac_gensym_disj__pari;
 mod mac_block__ser;
 mod mac_disj__exp;
-mod rnd_core_01__ser;
-mod rnd_core_03__pari;
-mod rnd_core_06__par;
-mod rnd_core_09__ser;
-mod rnd_core_11__pari;
-mod rnd_core_14__par;
-mod rnd_core_17__ser;
-mod rnd_core_19__pari;
-mod rnd_core_22__par;
-mod rnd_core_25__ser;
-mod rnd_core_27__pari;
-mod rnd_core_30__par;
-mod rnd_agg_03__ser;
-mod rnd_agg_05__pari;
-mod rnd_agg_08__par;
-mod rnd_agg_11__ser;
-mod rnd_agg_13__pari;
-mod rnd_prec_01__par;
-mod rnd_prec_02__topar;
-mod rnd_prec_04__pari;
-mod rnd_prec_06__ser;
-mod rnd_prec_07__to;
-mod rnd_prea_01__par;
-mod rnd_prea_04__ser;
-mod rnd_prea_06__pari;
+mod stress_rel__ser;
+mod rnd_core_02__pari;
+mod rnd_core_05__par;
+mod rnd_core_08__ser;
+mod rnd_core_10__pari;
+mod rnd_core_13__par;
+mod rnd_core_16__ser;
+mod rnd_core_18__pari;
+mod rnd_core_21__par;
+mod rnd_core_24__ser;
+mod rnd_core_26__pari;
+mod rnd_core_29__par;
+mod rnd_agg_02__ser;
+mod rnd_agg_04__pari;
+mod rnd_agg_07__par;
+mod rnd_agg_10__ser;
+mod rnd_agg_12__pari;
+mod rnd_agg_15__par;
+mod rnd_prec_02__par;
+mod rnd_prec_03__topar;
+mod rnd_prec_05__pari;
+mod rnd_prec_07__ser;
+mod rnd_prec_08__to;
+mod rnd_prea_03__ser;
+mod rnd_prea_05__pari;
+mod rnd_prea_08__par;
 
 fn lookup(name: &str) -> fn() -> Box<dyn Driven> {
    match name {
@@ -190,31 +191,32 @@ fn lookup(name: &str) -> fn() -> Box<dyn Driven> {
       "mac_gensym_disj__pari" => mac_gensym_disj__pari::make,
       "mac_block__ser" => mac_block__ser::make,
       "mac_disj__exp" => mac_disj__exp::make,
-      "rnd_core_01__ser" => rnd_core_01__ser::make,
-      "rnd_core_03__pari" => rnd_core_03__pari::make,
-      "rnd_core_06__par" => rnd_core_06__par::make,
-      "rnd_core_09__ser" => rnd_core_09__ser::make,
-      "rnd_core_11__pari" => rnd_core_11__pari::make,
-      "rnd_core_14__par" => rnd_core_14__par::make,
-      "rnd_core_17__ser" => rnd_core_17__ser::make,
-      "rnd_core_19__pari" => rnd_core_19__pari::make,
-      "rnd_core_22__par" => rnd_core_22__par::make,
-      "rnd_core_25__ser" => rnd_core_25__ser::make,
-      "rnd_core_27__pari" => rnd_core_27__pari::make,
-      "rnd_core_30__par" => rnd_core_30__par::make,
-      "rnd_agg_03__ser" => rnd_agg_03__ser::make,
-      "rnd_agg_05__pari" => rnd_agg_05__pari::make,
-      "rnd_agg_08__par" => rnd_agg_08__par::make,
-      "rnd_agg_11__ser" => rnd_agg_11__ser::make,
-      "rnd_agg_13__pari" => rnd_agg_13__pari::make,
-      "rnd_prec_01__par" => rnd_prec_01__par::make,
-      "rnd_prec_02__topar" => rnd_prec_02__topar::make,
-      "rnd_prec_04__pari" => rnd_prec_04__pari::make,
-      "rnd_prec_06__ser" => rnd_prec_06__ser::make,
-      "rnd_prec_07__to" => rnd_prec_07__to::make,
-      "rnd_prea_01__par" => rnd_prea_01__par::make,
-      "rnd_prea_04__ser" => rnd_prea_04__ser::make,
-      "rnd_prea_06__pari" => rnd_prea_06__pari::make,
+      "stress_rel__ser" => stress_rel__ser::make,
+      "rnd_core_02__pari" => rnd_core_02__pari::make,
+      "rnd_core_05__par" => rnd_core_05__par::make,
+      "rnd_core_08__ser" => rnd_core_08__ser::make,
+      "rnd_core_10__pari" => rnd_core_10__pari::make,
+      "rnd_core_13__par" => rnd_core_13__par::make,
+      "rnd_core_16__ser" => rnd_core_16__ser::make,
+      "rnd_core_18__pari" => rnd_core_18__pari::make,
+      "rnd_core_21__par" => rnd_core_21__par::make,
+      "rnd_core_24__ser" => rnd_core_24__ser::make,
+      "rnd_core_26__pari" => rnd_core_26__pari::make,
+      "rnd_core_29__par" => rnd_core_29__par::make,
+      "rnd_agg_02__ser" => rnd_agg_02__ser::make,
+      "rnd_agg_04__pari" => rnd_agg_04__pari::make,
+      "rnd_agg_07__par" => rnd_agg_07__par::make,
+      "rnd_agg_10__ser" => rnd_agg_10__ser::make,
+      "rnd_agg_12__pari" => rnd_agg_12__pari::make,
+      "rnd_agg_15__par" => rnd_agg_15__par::make,
+      "rnd_prec_02__par" => rnd_prec_02__par::make,
+      "rnd_prec_03__topar" => rnd_prec_03__topar::make,
+      "rnd_prec_05__pari" => rnd_prec_05__pari::make,
+      "rnd_prec_07__ser" => rnd_prec_07__ser::make,
+      "rnd_prec_08__to" => rnd_prec_08__to::make,
+      "rnd_prea_03__ser" => rnd_prea_03__ser::make,
+      "rnd_prea_05__pari" => rnd_prea_05__pari::make,
+      "rnd_prea_08__par" => rnd_prea_08__par::make,
       _ => panic!("no such program variant in this shard: {}", name),
    }
 }
